@@ -116,6 +116,8 @@ class World:
         self.states = []       # (domain slot, lib state)
         self.operators = []    # (domain slot, action, args, op)
         self.trajectories = [] # (domain slot, list of triplets) returned by the exporter
+        self.converter = None  # a MultiAgentDomainsConverter kept across combine operations
+        self.combined = []     # combined domains it returned
         self.with_objects = set()   # ids of pooled operators that were given the object table (needed for forall effects)
         self.answers = {}      # (op slot, state slot) -> applicability
         self.results = {}      # (op slot, state slot, flags) -> digest of the returned state
@@ -128,6 +130,8 @@ class World:
             d[("domain", i)] = digest_domain(dom)
         for i, (_, st) in enumerate(self.states):
             d[("state", i)] = digest_state(st)
+        for i, comb in enumerate(self.combined):
+            d[("domain", f"combined{i}")] = digest_domain(comb)
         return d
 
 
@@ -343,7 +347,14 @@ def run_history(case, res):
             for i, spec in enumerate(specs):
                 with open(d / f"domain-agent{i}.pddl", "w") as fh:
                     fh.write(domain_text(spec["dom"]))
-            lib_call(MultiAgentDomainsConverter(d).locate_domains, bool(op.get("dummy")))
+            # one converter object may serve several combinations; what it returned earlier stays what it was
+            if W.converter is None or not op.get("reuse", True):
+                W.converter = MultiAgentDomainsConverter(d)
+            else:
+                W.converter.domains_directory_path = d
+            okc, comb = lib_call(W.converter.locate_domains, bool(op.get("dummy")))
+            if okc:
+                W.combined.append(comb)
             combined = True
         else:
             raise pddl.Invalid(f"unknown op {kind}")
